@@ -9,7 +9,8 @@ L6 (ii) — DIMACS writer and reader (`cnfgen/utils/parsedimacs.py`).
   containing a line break produced non-comment lines — defect D14; the current
   code splits the value with `splitlines()` and prefixes every line, and joins the
   lines of a label with a blank; the model follows the current code.)
-  (The driver checks `lex (renderDimacsText …) = renderDimacs …` on every case.)
+  (The driver checks `lex (renderDimacsText …) = renderDimacs …` on every case; `Lemmas/IOTextDimacs.lean`
+  proves it for every formula whose numbers have at most `maxStrDigits` digits.)
 * `parseDimacs`       : `from_dimacs_file` ∘ `parse_dimacs`, the reader's state
   machine over token rows, with its exceptions.
 Import-free.
